@@ -610,6 +610,9 @@ Definition numeric_range_type (t : Z) : bool :=
 (* where the checker looks for the left neighbour: after the ellipsis of a
    preceding range, after the "Nx" of a repetition, or at the previous value *)
 Definition chk_l1 (l0 ell : str) : option str :=
+  (* an array (also behind "Nx") is a neighbour as a whole: no search inside it *)
+  let v := if is_range_multiplier l0 then after_x l0 else l0 in
+  if hd0 v =? 91 then Some v else
   match find_ellipsis l0 0 with
   | None => None
   | Some ne => Some (if Nat.ltb (length ell) (length ne) then skip_ws (skipn 3 ne)
